@@ -52,8 +52,14 @@ lines.append("Each sub-agent saw only the text of one property and a scratch "
              "defect that would STILL slip through: size thresholds between "
              "the tiers, hash collisions, environment settings (logging "
              "level, NumPy print options, python -O), aliasing of mutable "
-             "arguments, partial writes. 200 changes in total, 2 of "
-             "them rejected as outside the input domain (marked); "
+             "arguments, partial writes. Round 11 (S11-*) repeated this "
+             "with the enlarged description and a list of mechanisms not to "
+             "use: the agents turned to threads, the working directory, "
+             "process ids, header fields the tool never read, C type "
+             "aliases, double faults, terminal encodings, near-identity "
+             "transforms. 220 changes in total: 6 rejected as outside the "
+             "quantified domain (marked), 1 not detected (marked, a "
+             "documented limit), 213 detected; "
              "the 'caught by' column says when a check had to be "
              "strengthened first.\n")
 lines.append("| seeded change | breaks | what it needs to manifest | caught by"
@@ -70,6 +76,8 @@ for mp in sorted(glob.glob(os.path.join(V, "seeded", "*", "meta.json"))):
                        m["checks_run"].items())
     if m.get("out_of_domain"):
         caught = "(outside the input domain) " + caught
+    if m.get("not_detected"):
+        caught = "(NOT DETECTED, documented limit) " + caught
     first = "; ".join(r["first_violation"].strip()[:150]
                       for r in m["checks_run"].values()
                       if r["first_violation"])
